@@ -153,7 +153,7 @@ fn int_typed<D: Dim<N>, T: IntT, const N: usize>(t: &mut Tape, cx: &mut Cx) -> C
     }
     sample!(cx, "{}<{}> a={:?} b={:?} points={:?}", D::BOX, T::NAME, a, b, pts);
     direct_checks::<D, T, N>(cx, a, b, &pts, &cuts)?;
-    arith_checks::<D, T, N>(cx, ua, ub, &upts, &ucuts, &mk, true)?;
+    arith_checks::<D, T, i128, N>(cx, ua, ub, &upts, &ucuts, &mk, true)?;
     // element-wise casts next to the limits (`as`: wrapping between integers, rounding to floats)
     macro_rules! cast {
         ($U:ty) => {{
@@ -502,7 +502,7 @@ pub fn scaled_case<D: Dim<N>, F: Scaled, const N: usize>(t: &mut Tape, cx: &mut 
     cx.set_nontrivial(klabel != "moderate scale" || gap_vs_extent);
     sample!(cx, "{}<{}> unit 2^{}: a={:?} b={:?} points={:?} (in units: a={:?} b={:?})", D::BOX, <F as Dom>::NAME, kexp, a, b, pts, ua, ub);
     direct_checks::<D, F, N>(cx, a, b, &pts, &cuts)?;
-    arith_checks::<D, F, N>(cx, ua, ub, &upts, &ucuts, &mk, false)?;
+    arith_checks::<D, F, i128, N>(cx, ua, ub, &upts, &ucuts, &mk, false)?;
     // distance_to_point with Pythagorean offsets: exact while the squares neither overflow nor underflow
     if (kexp + 16).abs() <= F::SQ - 16 && ua.valid() {
         // (the first four offsets are planar)
